@@ -53,6 +53,16 @@ def gen_cases(tier, seed):
     for ln in LEN_BOUNDARY + LEN_OVER:
         for sid in (0, 2**32 - 1):
             add("enc", [2, sid, hx(rbytes(r, ln))], "enc-boundary" if ln <= 65535 else "enc-oversize", ln >= 65535)
+    # ---- encoder into a shared output buffer: a refused frame in the middle must leave the buffer untouched (the frames
+    # encoded before and after it stay decodable) -- seed C03-4
+    for i in range(30 if tier == "quick" else 300):
+        k = r.randint(2, 6)
+        toks = []
+        for j in range(k):
+            over = r.random() < 0.35
+            ln = r.choice(LEN_OVER) if over else r.choice([0, 1, 7, 100, 65535])
+            toks.append("%d:%d:%d:%d" % (r.choice([0, 1, 2, 3, 7, 10, 77]), r.choice(SIDS), ln, r.randint(0, 255)))
+        add("encseq", toks, "enc-shared-buffer", any(int(t.split(":")[2]) > 65535 for t in toks))
     # ---- decoder: valid concatenations, every split for short wires
     nshort = 40 if tier == "quick" else 400
     for i in range(nshort):
@@ -94,6 +104,21 @@ def oracle(c, ir):
             return None if ir == "ERR" else "encoder accepted a %d-byte payload: %s" % (len(data), ir[:60])
         exp = "OK " + hx(ref_encode(cb, sid, data))
         return None if ir == exp else "encode(%d,%d,len %d): expected %s.. got %s.." % (cb, sid, len(data), exp[:60], ir[:60])
+    if c.drv == "encseq":
+        buf, verd = b"", []
+        for tok in c.args:
+            cb, sid, ln, seed = (int(x) for x in tok.split(":"))
+            data = bytes((seed + i) & 255 for i in range(ln))
+            if ln > 65535:
+                verd.append("err")
+            else:
+                verd.append("ok"); buf += ref_encode(cb, sid, data)
+        fnv = 2166136261
+        for b in buf:
+            fnv = ((fnv ^ b) * 16777619) & 0xFFFFFFFF
+        exp = "%s | len=%d sum=%d fnv=%d" % (" ".join(verd), len(buf), sum(buf) & 0xFFFFFFFF, fnv)
+        return None if ir == exp else ("frames encoded one after the other into one buffer (a refused frame must leave it as it was): expected %s got %s"
+                                       % (exp, ir[:200]))
     if c.drv == "dec":
         exp = ref_stream_decode([unhx(a) for a in c.args])
         return None if ir == exp else "stream decode differs from the reference parser: expected %s got %s" % (exp[:200], ir[:200])
